@@ -425,6 +425,16 @@ impl<'a> StringParser<'a> {
                 '}' => {
                     break;
                 }
+                // escape sequences are decoded in a format spec like in the rest of the literal
+                '\\' if !self.kind.is_raw() => {
+                    self.next_char();
+                    if let Some('{' | '}') = self.peek() {
+                        constant_piece.push('\\');
+                    } else {
+                        constant_piece.push_str(&self.parse_escaped_char()?);
+                    }
+                    continue;
+                }
                 _ => {
                     constant_piece.push(next);
                 }
